@@ -11,6 +11,7 @@ Tie C: tools/sched.py runs the REAL functions on real threads under every schedu
 single-threaded order of the same calls gives from the same initial state.
 """
 import sys, os, io, contextlib, itertools, importlib
+import subprocess, json
 import vlib, sched
 
 DUMMY = '__c16_dummy__'
@@ -297,6 +298,57 @@ def spec_of(w, case, directives, order):
             'directives': [[d[0], w.rel(d[1][0]), d[1][1], d[2], d[3]] for d in directives]}
 
 
+CHILD = os.path.join(os.path.dirname(os.path.dirname(os.path.abspath(__file__))), 'c16_child.py')
+_fresh_cache = {}
+def fresh(spec):
+    """run a spec in a fresh interpreter (fresh import of athlib); cached"""
+    key = json.dumps(spec, sort_keys=True)
+    if key not in _fresh_cache:
+        p = subprocess.run([sys.executable, CHILD, key], capture_output=True, text=True, timeout=300, env=dict(os.environ))
+        try:
+            _fresh_cache[key] = json.loads(p.stdout.strip().split('\n')[-1])['results']
+        except Exception:
+            raise vlib.InternalError('c16 child failed: rc=%s %s' % (p.returncode, p.stderr[-600:]))
+    return _fresh_cache[key]
+
+
+def first_call_check(ctx, w, case, seen_fail):
+    """the 'first' variant claims to re-create first-call state in-process; check it against really fresh interpreters
+    and, where it does not hold (state the restore cannot rebuild: a consumed iterator, a closed file ...), explore the
+    schedules of this case in fresh interpreters instead"""
+    n = len(case.names)
+    seq = [fresh({'names': [case.names[i]], 'order': [0], 'seq': True})[0] for i in range(n)]
+    ctx.count(n, 'fresh_interpreter_runs')
+    if list(case.solo) == seq:
+        return 0
+    ctx.notes.append('first-call state of %s cannot be re-created in-process (restored: %r, fresh interpreter: %r): schedules run in fresh interpreters' % (case.names, case.solo, seq))
+    allowed = set()
+    for perm in itertools.permutations(range(n)):
+        allowed.add(tuple(fresh({'names': case.names, 'order': list(perm), 'seq': True})))
+    nbad = 0; nrun = 0
+    scheds = case.schedules(1, ctx.rng, 0)
+    for directives, order in scheds[:120]:
+        sp = {'names': case.names, 'order': list(order), 'directives': [[d[0], w.rel(d[1][0]), d[1][1], d[2], d[3]] for d in directives]}
+        res = tuple(fresh(sp)); nrun += 1
+        ctx.count(1, 'fresh_interpreter_runs')
+        if res in allowed: continue
+        nbad += 1
+        sig = ('fresh', tuple(case.names))
+        if sig in seen_fail: continue
+        seen_fail.add(sig)
+        ref = sorted(allowed)[0]
+        ctx.fail('concurrent ' + ' || '.join(CALL[x][2] for x in case.names),
+                 {'variant': 'first call in a fresh interpreter', 'threads': [CALL[x][2] for x in case.names], 'schedule': sp['directives'], 'start_order': list(order)},
+                 '; '.join('thread %d: %s' % (k, ref[k]) for k in range(n)), '; '.join('thread %d: %s' % (k, res[k]) for k in range(n)),
+                 note='first calls in a fresh interpreter: the joint result is not that of any single-threaded order',
+                 replay_py='from checks import c16\nresult = c16.fresh(%r)' % (sp,))
+    ctx.stats['violating_schedules'] = ctx.stats.get('violating_schedules', 0) + nbad
+    if nbad == 0:
+        ctx.oblig('harness:first-call state re-created in-process equals a fresh interpreter', 'correspondence', False,
+                  '%r: restored %r, fresh %r; %d schedules in fresh interpreters found nothing' % (case.names, case.solo, seq, nrun))
+    return nbad
+
+
 _world = None
 def replay(spec):
     """re-run one recorded schedule (used by `vcheck.py --replay` through replay_py)"""
@@ -315,6 +367,8 @@ def replay(spec):
 
 def explore(ctx, w, names, variant, npre, cap, seen_fail):
     case = Case(w, names, variant)
+    if variant == 'first' and npre == 1 and tuple(names) in FRESH_CHECKED:
+        first_call_check(ctx, w, case, seen_fail)
     scheds = case.schedules(npre, ctx.rng, cap)
     tag = '%s/%s' % (CALL[names[0]][1], variant)
     nbad = 0
@@ -357,6 +411,11 @@ def explore(ctx, w, names, variant, npre, cap, seen_fail):
                     'points_per_thread': [len(p) for p in case.points], 'line_events_per_thread': case.events,
                     'sequential_outcomes': sorted(case.allowed)[0:2]})
     return len(scheds), nbad
+
+
+# cases whose in-process 'first' state is cross-checked against fresh interpreters (one per group of lazily built state)
+FRESH_CHECKED = {('as_m100', 'as_flj'), ('hs_m100', 'hs_flj'), ('sh_slj', 'sh_100'), ('af_m100', 'af_f5k'), ('af15_m100', 'af15_f5k'),
+                 ('aaf_m60h', 'aaf_flj'), ('sv_meta', 'sv_perf'), ('vs_ath', 'vs_perf')}
 
 
 def variants_for(names):
